@@ -116,7 +116,9 @@ class SageRef:
         if len(raw) > 1:
             tot = abs(float(sum(raw.values(), Q(0))))
             sabs = float(sum((abs(v) for v in raw.values()), Q(0)))
-            if tot <= 1e-6 * sabs:
+            # ... or a sum that is tiny compared with the terms the model outputs are summed from (float rounding can turn it into
+            # an exact zero, which the library - correctly - treats differently from a tiny non-zero sum)
+            if tot <= 1e-6 * max(sabs, getattr(self.model, 'term_scale', 0.0)):
                 # normalising by a (near-)zero sum: exact arithmetic is decided, floats are not comparable here
                 self.ill_conditioned = True
         L = self.loss(yq, self.marginal_prediction)
